@@ -22,13 +22,14 @@ async function load(rel) {
 }
 const lowerFirst = (s) => s.charAt(0).toLowerCase() + s.slice(1);
 function findMethod(obj, rpc) {
-  const want = rpc.toLowerCase();
+  const norm = (s) => s.toLowerCase().replaceAll('_', '');
+  const want = norm(rpc);
   let p = obj;
   while (p && p !== Object.prototype) {
-    for (const k of Object.getOwnPropertyNames(p)) if (k.toLowerCase() === want && typeof obj[k] === 'function') return k;
+    for (const k of Object.getOwnPropertyNames(p)) if (norm(k) === want && typeof obj[k] === 'function') return k;
     p = Object.getPrototypeOf(p);
   }
-  for (const k of Object.keys(obj)) if (k.toLowerCase() === want && typeof obj[k] === 'function') return k;
+  for (const k of Object.keys(obj)) if (norm(k) === want && typeof obj[k] === 'function') return k;
   return null;
 }
 function errInfo(e) {
